@@ -401,3 +401,40 @@ def stream_per_run(ctx, rule: str, search_modes=("all_finds", "first_find")) -> 
         ok = len(streams) == 2 and streams[0] == streams[1]
         ctx.check(ok, rule, f"MasterOfPuppets.perform_matching x2 [{sc.cfg.get('search_mode', '')}]", f"{streams}"[:220],
                   "a repeated operation searches the same stream as the first one (records are not accumulated across runs)")
+
+
+def one_yaml_loader(ctx, rule: str) -> int:
+    """every YAML document the program reads (the rule file, every extra macro file) is parsed by the same, safe, loader:
+    the meaning of a macro body (`0x10`, `2`, `no`) must not depend on which file it was written in"""
+    import ast as _ast
+    n = 0
+    seen = []
+    for m in ctx.p.modules.values():
+        yaml_names = {loc for loc, (mod, name) in m.imports.items() if mod == "yaml" and name is None}
+        from_names = {loc: name for loc, (mod, name) in m.imports.items() if mod == "yaml" and name is not None}
+        for node in _ast.walk(m.tree):
+            if not isinstance(node, _ast.Call):
+                continue
+            fn = None
+            if isinstance(node.func, _ast.Attribute) and isinstance(node.func.value, _ast.Name) and node.func.value.id in yaml_names:
+                fn = node.func.attr
+            elif isinstance(node.func, _ast.Name) and node.func.id in from_names:
+                fn = from_names[node.func.id]
+            if fn is None or not (fn.endswith("load") or fn.endswith("load_all")):
+                continue
+            loader = None
+            for k in node.keywords:
+                if k.arg == "Loader":
+                    loader = _ast.unparse(k.value).split(".")[-1]
+            if loader is None and len(node.args) > 1:
+                loader = _ast.unparse(node.args[1]).split(".")[-1]
+            kind = "safe" if fn in ("safe_load", "safe_load_all") or loader in ("SafeLoader", "CSafeLoader") else f"{fn}/{loader}"
+            seen.append((f"{m.rel()}:{node.lineno}", kind))
+    for where, kind in seen:
+        n += 1
+        ctx.check(kind == "safe", rule, where, f"loader kind {kind}; all loads: {sorted({k for _, k in seen})}",
+                  "every YAML document is parsed with the safe loader (one meaning for a scalar, whichever file it is written in)")
+    if not seen:
+        from ..facts import AnalysisError
+        raise AnalysisError("no YAML load found in the program (anchor vanished)")
+    return n
